@@ -114,7 +114,10 @@ def run_job(exe: str, evfile: str, nevents: int, timeout: int = 60, wrapper: Lis
                 book[-1]["consumes"].append({"serial": int(f["serial"]), "ctype": unhex(f["ctype"]), "bank": unhex(f["bank"])})
             elif l.startswith("FILL "):
                 parts = l.split()
-                row = {"tree": unhex(parts[1].split("=")[1]), "cols": [(unhex(p.split("=", 1)[0]), parse_val(p.split("=", 1)[1])) for p in parts[2:]]}
+                try:
+                    row = {"tree": unhex(parts[1].split("=")[1]), "cols": [(unhex(p.split("=", 1)[0]), parse_val(p.split("=", 1)[1])) for p in parts[2:]]}
+                except Exception:
+                    row = {"tree": "?", "cols": [("<malformed FILL record>", l[:200])]}
                 if cur is not None:
                     events[cur]["rows"].append(row)
                 else:
@@ -180,4 +183,8 @@ def parse_val(s: str):
     try:
         return int(s)
     except ValueError:
+        pass
+    try:
         return float(s)
+    except ValueError:
+        return "<unparsable:" + s[:40] + ">"   # garbage from the job (e.g. an uninitialised value): compares unequal to anything
